@@ -3,6 +3,7 @@ CONSTANTS
   MissingOrder = "signature"
   Reorder = TRUE
   PadFromFront = FALSE
+  DocExtras = {}
 INVARIANT NoDropNoDup
 INVARIANT SigDefaults
 INVARIANT SourceOrder
